@@ -3579,3 +3579,655 @@ let rewrite c file prog =
                       | None -> gen_cancel_unknown) :: [])))
      | _ -> OutOk (ast, t))
   | None -> OutFuel
+
+(** val hook_callee_name : node -> char list option **)
+
+let hook_callee_name = function
+| Node (t, cs) ->
+  (match t with
+   | K (k, _, _) ->
+     (match k with
+      | KMember ->
+        (match cs with
+         | [] -> None
+         | n0 :: l ->
+           let Node (t0, cs0) = n0 in
+           (match t0 with
+            | K (k0, _, _) ->
+              (match k0 with
+               | KIdent ->
+                 (match cs0 with
+                  | [] -> None
+                  | _ :: l0 ->
+                    (match l0 with
+                     | [] -> None
+                     | n1 :: _ ->
+                       let Node (t1, cs1) = n1 in
+                       (match t1 with
+                        | Str ns ->
+                          (match cs1 with
+                           | [] ->
+                             (match l with
+                              | [] -> None
+                              | n2 :: l2 ->
+                                let Node (t2, cs2) = n2 in
+                                (match t2 with
+                                 | K (k1, _, _) ->
+                                   (match k1 with
+                                    | KIdentName ->
+                                      (match cs2 with
+                                       | [] -> None
+                                       | n3 :: l3 ->
+                                         let Node (t3, cs3) = n3 in
+                                         (match t3 with
+                                          | Str name ->
+                                            (match cs3 with
+                                             | [] ->
+                                               (match l3 with
+                                                | [] ->
+                                                  (match l2 with
+                                                   | [] ->
+                                                     if eqb0 ns
+                                                          gen_DD_GLOBAL_NAMESPACE
+                                                     then Some name
+                                                     else None
+                                                   | _ :: _ -> None)
+                                                | _ :: _ -> None)
+                                             | _ :: _ -> None)
+                                          | _ -> None))
+                                    | _ -> None)
+                                 | _ -> None))
+                           | _ :: _ -> None)
+                        | _ -> None)))
+               | _ -> None)
+            | _ -> None))
+      | _ -> None)
+   | _ -> None)
+
+(** val hook_call : node -> (char list * node list) option **)
+
+let hook_call = function
+| Node (t, cs) ->
+  (match t with
+   | K (k, _, _) ->
+     (match k with
+      | KCall ->
+        (match cs with
+         | [] -> None
+         | _ :: l ->
+           (match l with
+            | [] -> None
+            | callee :: l0 ->
+              (match l0 with
+               | [] -> None
+               | n1 :: l1 ->
+                 let Node (t0, args) = n1 in
+                 (match t0 with
+                  | Lst ->
+                    (match l1 with
+                     | [] -> None
+                     | _ :: l2 ->
+                       (match l2 with
+                        | [] ->
+                          (match hook_callee_name callee with
+                           | Some name -> Some (name, args)
+                           | None -> None)
+                        | _ :: _ -> None))
+                  | _ -> None))))
+      | _ -> None)
+   | _ -> None)
+
+(** val is_hook : node -> bool **)
+
+let is_hook n0 =
+  match hook_call n0 with
+  | Some _ -> true
+  | None -> false
+
+(** val hook_count : node -> nat **)
+
+let rec hook_count = function
+| Node (t, cs) ->
+  add (if is_hook (Node (t, cs)) then S O else O)
+    (let rec go = function
+     | [] -> O
+     | c :: l' -> add (hook_count c) (go l')
+     in go cs)
+
+(** val hook_names : node -> char list list **)
+
+let rec hook_names = function
+| Node (t, cs) ->
+  app
+    (match hook_call (Node (t, cs)) with
+     | Some p -> let (name, _) = p in name :: []
+     | None -> [])
+    (let rec go = function
+     | [] -> []
+     | c :: l' -> app (hook_names c) (go l')
+     in go cs)
+
+(** val assign_pair : node -> (char list * node) option **)
+
+let assign_pair = function
+| Node (t, cs) ->
+  (match t with
+   | K (k, _, _) ->
+     (match k with
+      | KAssign ->
+        (match cs with
+         | [] -> None
+         | n1 :: l ->
+           let Node (t0, cs0) = n1 in
+           (match t0 with
+            | Str s ->
+              (match s with
+               | [] -> None
+               | a::s0 ->
+                 (* If this appears, you're using Ascii internals. Please don't *)
+ (fun f c ->
+  let n = Char.code c in
+  let h i = (n land (1 lsl i)) <> 0 in
+  f (h 0) (h 1) (h 2) (h 3) (h 4) (h 5) (h 6) (h 7))
+                   (fun b b0 b1 b2 b3 b4 b5 b6 ->
+                   if b
+                   then if b0
+                        then None
+                        else if b1
+                             then if b2
+                                  then if b3
+                                       then if b4
+                                            then if b5
+                                                 then None
+                                                 else if b6
+                                                      then None
+                                                      else (match s0 with
+                                                            | [] ->
+                                                              (match cs0 with
+                                                               | [] ->
+                                                                 (match l with
+                                                                  | [] -> None
+                                                                  | lhs :: l0 ->
+                                                                    (match l0 with
+                                                                    | [] ->
+                                                                    None
+                                                                    | rhs :: l1 ->
+                                                                    (match l1 with
+                                                                    | [] ->
+                                                                    (match 
+                                                                    ident_sym
+                                                                    lhs with
+                                                                    | Some s1 ->
+                                                                    Some (s1,
+                                                                    rhs)
+                                                                    | None ->
+                                                                    None)
+                                                                    | _ :: _ ->
+                                                                    None)))
+                                                               | _ :: _ ->
+                                                                 None)
+                                                            | _::_ -> None)
+                                            else None
+                                       else None
+                                  else None
+                             else None
+                   else None)
+                   a)
+            | _ -> None))
+      | _ -> None)
+   | _ -> None)
+
+(** val lookup_assign : char list -> node list -> node option **)
+
+let rec lookup_assign name = function
+| [] -> None
+| x :: l' ->
+  (match assign_pair x with
+   | Some p ->
+     let (s, rhs) = p in
+     if eqb0 s name then Some rhs else lookup_assign name l'
+   | None -> lookup_assign name l')
+
+(** val tag_of_operation : node -> node list -> bool -> char list **)
+
+let tag_of_operation op env same_span_assign =
+  let Node (t, cs) = op in
+  (match t with
+   | K (k, _, _) ->
+     (match k with
+      | KBin -> if same_span_assign then gen_ADD_ASSIGN_TAG else gen_ADD_TAG
+      | KTpl -> gen_TPL_TAG
+      | KCall ->
+        (match cs with
+         | [] -> '?'::[]
+         | _ :: l ->
+           (match l with
+            | [] -> '?'::[]
+            | callee :: l0 ->
+              (match l0 with
+               | [] -> '?'::[]
+               | _ :: l1 ->
+                 (match l1 with
+                  | [] -> '?'::[]
+                  | _ :: l2 ->
+                    (match l2 with
+                     | [] ->
+                       let Node (t0, cs0) = callee in
+                       (match t0 with
+                        | K (k0, _, _) ->
+                          (match k0 with
+                           | KMember ->
+                             (match cs0 with
+                              | [] ->
+                                (match ident_sym callee with
+                                 | Some f -> f
+                                 | None -> '?'::[])
+                              | obj :: l3 ->
+                                (match l3 with
+                                 | [] ->
+                                   (match ident_sym callee with
+                                    | Some f -> f
+                                    | None -> '?'::[])
+                                 | _ :: l4 ->
+                                   (match l4 with
+                                    | [] ->
+                                      (match ident_sym obj with
+                                       | Some tmp ->
+                                         (match lookup_assign tmp env with
+                                          | Some n0 ->
+                                            let Node (t1, cs1) = n0 in
+                                            (match t1 with
+                                             | K (k1, _, _) ->
+                                               (match k1 with
+                                                | KMember ->
+                                                  (match cs1 with
+                                                   | [] -> '?'::[]
+                                                   | _ :: l5 ->
+                                                     (match l5 with
+                                                      | [] -> '?'::[]
+                                                      | prop :: l6 ->
+                                                        (match l6 with
+                                                         | [] ->
+                                                           (match ident_name_sym
+                                                                    prop with
+                                                            | Some m -> m
+                                                            | None -> '?'::[])
+                                                         | _ :: _ -> '?'::[])))
+                                                | _ -> '?'::[])
+                                             | _ -> '?'::[])
+                                          | None -> '?'::[])
+                                       | None -> '?'::[])
+                                    | _ :: _ ->
+                                      (match ident_sym callee with
+                                       | Some f -> f
+                                       | None -> '?'::[]))))
+                           | _ ->
+                             (match ident_sym callee with
+                              | Some f -> f
+                              | None -> '?'::[]))
+                        | _ ->
+                          (match ident_sym callee with
+                           | Some f -> f
+                           | None -> '?'::[]))
+                     | _ :: _ -> '?'::[])))))
+      | _ -> '?'::[])
+   | _ -> '?'::[])
+
+(** val first_arg : node list -> node option **)
+
+let first_arg = function
+| [] -> None
+| a :: _ -> arg_expr a
+
+(** val hook_tags_aux :
+    char list -> node list -> sp option -> node -> char list list **)
+
+let rec hook_tags_aux vp env asg = function
+| Node (t, cs) ->
+  let here =
+    match hook_call (Node (t, cs)) with
+    | Some p ->
+      let (_, args) = p in
+      (match first_arg args with
+       | Some op ->
+         let same =
+           match asg with
+           | Some s ->
+             (&&) (N.eqb (fst s) (fst (span_of (Node (t, cs)))))
+               (N.eqb (snd s) (snd (span_of (Node (t, cs)))))
+           | None -> false
+         in
+         (tag_of_operation op env same) :: []
+       | None -> ('?'::[]) :: [])
+    | None -> []
+  in
+  let rest =
+    match t with
+    | K (k, lo, hi) ->
+      (match k with
+       | KScript ->
+         let rec go = function
+         | [] -> []
+         | c :: l' -> app (hook_tags_aux vp env None c) (go l')
+         in go cs
+       | KAssign ->
+         (match cs with
+          | [] ->
+            let rec go = function
+            | [] -> []
+            | c :: l' -> app (hook_tags_aux vp env None c) (go l')
+            in go cs
+          | _ :: l ->
+            (match l with
+             | [] ->
+               let rec go = function
+               | [] -> []
+               | c :: l' -> app (hook_tags_aux vp env None c) (go l')
+               in go cs
+             | lhs :: l0 ->
+               (match l0 with
+                | [] ->
+                  let rec go = function
+                  | [] -> []
+                  | c :: l' -> app (hook_tags_aux vp env None c) (go l')
+                  in go cs
+                | rhs :: l1 ->
+                  (match l1 with
+                   | [] ->
+                     let user_target =
+                       match ident_sym lhs with
+                       | Some s -> negb (prefix vp s)
+                       | None -> true
+                     in
+                     app (hook_tags_aux vp env None lhs)
+                       (hook_tags_aux vp env
+                         (if user_target then Some (lo, hi) else None) rhs)
+                   | _ :: _ ->
+                     let rec go = function
+                     | [] -> []
+                     | c :: l' -> app (hook_tags_aux vp env None c) (go l')
+                     in go cs))))
+       | KParen ->
+         (match cs with
+          | [] ->
+            let rec go = function
+            | [] -> []
+            | c :: l' -> app (hook_tags_aux vp env None c) (go l')
+            in go cs
+          | e :: l ->
+            (match l with
+             | [] -> hook_tags_aux vp env asg e
+             | _ :: _ ->
+               let rec go = function
+               | [] -> []
+               | c :: l' -> app (hook_tags_aux vp env None c) (go l')
+               in go cs))
+       | KSeq ->
+         (match cs with
+          | [] ->
+            let rec go = function
+            | [] -> []
+            | c :: l' -> app (hook_tags_aux vp env None c) (go l')
+            in go cs
+          | n1 :: l ->
+            let Node (t0, es) = n1 in
+            (match t0 with
+             | Lst ->
+               (match l with
+                | [] ->
+                  let rec go = function
+                  | [] -> []
+                  | c :: l' ->
+                    (match l' with
+                     | [] -> hook_tags_aux vp es asg c
+                     | _ :: _ -> app (hook_tags_aux vp es None c) (go l'))
+                  in go es
+                | _ :: _ ->
+                  let rec go = function
+                  | [] -> []
+                  | c :: l' -> app (hook_tags_aux vp env None c) (go l')
+                  in go cs)
+             | _ ->
+               let rec go = function
+               | [] -> []
+               | c :: l' -> app (hook_tags_aux vp env None c) (go l')
+               in go cs))
+       | _ ->
+         let rec go = function
+         | [] -> []
+         | c :: l' -> app (hook_tags_aux vp env None c) (go l')
+         in go cs)
+    | _ ->
+      let rec go = function
+      | [] -> []
+      | c :: l' -> app (hook_tags_aux vp env None c) (go l')
+      in go cs
+  in
+  app here rest
+
+(** val hook_tags : char list -> node -> char list list **)
+
+let hook_tags vp n0 =
+  hook_tags_aux vp [] None n0
+
+(** val hook_sites : node -> (char list * (n * n)) list **)
+
+let rec hook_sites = function
+| Node (t, cs) ->
+  app
+    (match hook_call (Node (t, cs)) with
+     | Some p -> let (name, _) = p in (name, (span_of (Node (t, cs)))) :: []
+     | None -> [])
+    (let rec go = function
+     | [] -> []
+     | c :: l' -> app (hook_sites c) (go l')
+     in go cs)
+
+(** val any_node : (node -> bool) -> node -> bool **)
+
+let rec any_node p n0 =
+  (||) (p n0)
+    (let Node (_, cs) = n0 in
+     let rec go = function
+     | [] -> false
+     | c :: l' -> (||) (any_node p c) (go l')
+     in go cs)
+
+(** val kind_in : kind list -> node -> bool **)
+
+let kind_in ks n0 =
+  match kind_of n0 with
+  | Some k -> existsb (kind_eqb k) ks
+  | None -> false
+
+(** val instrumentable_kinds : kind list **)
+
+let instrumentable_kinds =
+  KCall :: (KTpl :: (KBin :: (KAssign :: (KOptChain :: []))))
+
+(** val compound_assign_target : node -> node option **)
+
+let compound_assign_target = function
+| Node (t, cs) ->
+  (match t with
+   | K (k, _, _) ->
+     (match k with
+      | KAssign ->
+        (match cs with
+         | [] -> None
+         | n1 :: l ->
+           let Node (t0, cs0) = n1 in
+           (match t0 with
+            | Str s ->
+              (match s with
+               | [] -> None
+               | a::s0 ->
+                 (* If this appears, you're using Ascii internals. Please don't *)
+ (fun f c ->
+  let n = Char.code c in
+  let h i = (n land (1 lsl i)) <> 0 in
+  f (h 0) (h 1) (h 2) (h 3) (h 4) (h 5) (h 6) (h 7))
+                   (fun b b0 b1 b2 b3 b4 b5 b6 ->
+                   if b
+                   then if b0
+                        then if b1
+                             then None
+                             else if b2
+                                  then if b3
+                                       then None
+                                       else if b4
+                                            then if b5
+                                                 then None
+                                                 else if b6
+                                                      then None
+                                                      else (match s0 with
+                                                            | [] -> None
+                                                            | a0::s1 ->
+                                                              (* If this appears, you're using Ascii internals. Please don't *)
+ (fun f c ->
+  let n = Char.code c in
+  let h i = (n land (1 lsl i)) <> 0 in
+  f (h 0) (h 1) (h 2) (h 3) (h 4) (h 5) (h 6) (h 7))
+                                                                (fun b7 b8 b9 b10 b11 b12 b13 b14 ->
+                                                                if b7
+                                                                then 
+                                                                  if b8
+                                                                  then None
+                                                                  else 
+                                                                    if b9
+                                                                    then 
+                                                                    if b10
+                                                                    then 
+                                                                    if b11
+                                                                    then 
+                                                                    if b12
+                                                                    then 
+                                                                    if b13
+                                                                    then None
+                                                                    else 
+                                                                    if b14
+                                                                    then None
+                                                                    else 
+                                                                    (match s1 with
+                                                                    | [] ->
+                                                                    (match cs0 with
+                                                                    | [] ->
+                                                                    (match l with
+                                                                    | [] ->
+                                                                    None
+                                                                    | lhs :: l0 ->
+                                                                    (match l0 with
+                                                                    | [] ->
+                                                                    None
+                                                                    | _ :: l1 ->
+                                                                    (match l1 with
+                                                                    | [] ->
+                                                                    Some lhs
+                                                                    | _ :: _ ->
+                                                                    None)))
+                                                                    | _ :: _ ->
+                                                                    None)
+                                                                    | _::_ ->
+                                                                    None)
+                                                                    else None
+                                                                    else None
+                                                                    else None
+                                                                    else None
+                                                                else None)
+                                                                a0)
+                                            else None
+                                  else None
+                        else None
+                   else None)
+                   a)
+            | _ -> None))
+      | _ -> None)
+   | _ -> None)
+
+(** val k_compound_target_instrumentable : node -> bool **)
+
+let k_compound_target_instrumentable prog =
+  any_node (fun n0 ->
+    match compound_assign_target n0 with
+    | Some lhs -> any_node (kind_in instrumentable_kinds) lhs
+    | None -> false) prog
+
+(** val simple_member_target : node -> bool **)
+
+let simple_member_target = function
+| Node (t0, cs) ->
+  (match t0 with
+   | K (k, _, _) ->
+     (match k with
+      | KMember ->
+        (match cs with
+         | [] -> false
+         | obj :: l ->
+           (match l with
+            | [] -> false
+            | prop :: l0 ->
+              (match l0 with
+               | [] ->
+                 (&&) ((||) (is_ident obj) (is_kind KThis obj))
+                   (let Node (t1, cs0) = prop in
+                    (match t1 with
+                     | K (k0, _, _) ->
+                       (match k0 with
+                        | KIdentName -> true
+                        | KComputed ->
+                          (match cs0 with
+                           | [] -> false
+                           | e :: l1 ->
+                             (match l1 with
+                              | [] -> (||) (is_lit e) (is_ident e)
+                              | _ :: _ -> false))
+                        | KPrivateName -> true
+                        | _ -> false)
+                     | _ -> false))
+               | _ :: _ -> false)))
+      | KSuperProp ->
+        (match cs with
+         | [] -> false
+         | _ :: l ->
+           (match l with
+            | [] -> false
+            | prop :: l0 ->
+              (match l0 with
+               | [] ->
+                 let Node (t1, cs0) = prop in
+                 (match t1 with
+                  | K (k0, _, _) ->
+                    (match k0 with
+                     | KIdentName -> true
+                     | KComputed ->
+                       (match cs0 with
+                        | [] -> false
+                        | e :: l1 ->
+                          (match l1 with
+                           | [] -> (||) (is_lit e) (is_ident e)
+                           | _ :: _ -> false))
+                     | _ -> false)
+                  | _ -> false)
+               | _ :: _ -> false)))
+      | KIdent -> true
+      | _ -> false)
+   | _ -> false)
+
+(** val k_compound_member_target : node -> bool **)
+
+let k_compound_member_target prog =
+  any_node (fun n0 ->
+    match compound_assign_target n0 with
+    | Some lhs -> negb (simple_member_target lhs)
+    | None -> false) prog
+
+(** val known_classes : node -> char list list **)
+
+let known_classes prog =
+  app
+    (if k_compound_target_instrumentable prog
+     then ('c'::('o'::('m'::('p'::('o'::('u'::('n'::('d'::('-'::('t'::('a'::('r'::('g'::('e'::('t'::('-'::('i'::('n'::('s'::('t'::('r'::('u'::('m'::('e'::('n'::('t'::('a'::('b'::('l'::('e'::[])))))))))))))))))))))))))))))) :: []
+     else [])
+    (if k_compound_member_target prog
+     then ('c'::('o'::('m'::('p'::('o'::('u'::('n'::('d'::('-'::('m'::('e'::('m'::('b'::('e'::('r'::('-'::('t'::('a'::('r'::('g'::('e'::('t'::[])))))))))))))))))))))) :: []
+     else [])
